@@ -158,6 +158,10 @@ func mapRangeOrderFree(c *core.Ctx, info *types.Info, d *ast.FuncDecl, rs *ast.R
 			if f != nil && isPure(c, f, 0) {
 				return true
 			}
+			if f != nil && core.InModule(f) && isPureX(c, f, 0, true) {
+				reasons = append(reasons, "helper "+f.Name()+" only computes and reports to the sorting sinks")
+				return true
+			}
 			bad = "calls " + orDyn(name, ce) + " inside the loop (not known to be order-independent)"
 			return false
 		})
@@ -398,7 +402,11 @@ func dedup(in []string) []string {
 // isPure: a function that (transitively, statically) writes no file, emits nothing,
 // appends to no outer state. Conservative whitelist by package + module functions
 // whose bodies contain no assignment to non-locals and no calls outside the whitelist.
-func isPure(c *core.Ctx, f *types.Func, depth int) bool {
+func isPure(c *core.Ctx, f *types.Func, depth int) bool { return isPureX(c, f, depth, false) }
+
+// isPureX with comm: the function may, besides computing, make calls that commute across iterations (the sorting sinks
+// and values of the sink function types) — a helper factored out of a map loop's body
+func isPureX(c *core.Ctx, f *types.Func, depth int, comm bool) bool {
 	if f.Pkg() == nil {
 		return true
 	}
@@ -430,7 +438,7 @@ func isPure(c *core.Ctx, f *types.Func, depth int) bool {
 				}
 				m := sel.Obj().(*types.Func)
 				n++
-				if !isPure(c, m, depth+1) {
+				if !isPureX(c, m, depth+1, comm) {
 					return false
 				}
 			}
@@ -479,11 +487,23 @@ func isPure(c *core.Ctx, f *types.Func, depth int) bool {
 				return true
 			}
 			g := core.Callee(p.TypesInfo, x)
+			if comm {
+				if _, ok := commutativeCalls[core.FullName(g)]; ok {
+					return true
+				}
+				if g == nil {
+					if nt := core.NamedOf(p.TypesInfo.TypeOf(x.Fun)); nt != nil && nt.Obj().Pkg() != nil {
+						if _, ok := commutativeFuncTypes[nt.Obj().Pkg().Path()+"."+nt.Obj().Name()]; ok {
+							return true
+						}
+					}
+				}
+			}
 			if g == nil {
 				pure = false
 				return false
 			}
-			if g.Origin() != f.Origin() && !isPure(c, g.Origin(), depth+1) {
+			if g.Origin() != f.Origin() && !isPureX(c, g.Origin(), depth+1, comm) {
 				pure = false
 			}
 		}
